@@ -279,7 +279,7 @@ pub fn saturate(
     let mut frontier: Vec<(Image, ReplicaModel)> = vec![];
     for (img, m) in init {
         let fp = env::fp_image(&img, b"");
-        if seen.lock().unwrap().insert(fp, ()).is_none() {
+        if seen.lock().unwrap_or_else(|e| e.into_inner()).insert(fp, ()).is_none() {
             frontier.push((img, m));
         }
     }
@@ -346,7 +346,7 @@ pub fn saturate(
                             }
                             let Some(ni) = r.image_after else { continue };
                             let fp = env::fp_image(&ni, b"");
-                            let newly = seen.lock().unwrap().insert(fp, ()).is_none();
+                            let newly = seen.lock().unwrap_or_else(|e| e.into_inner()).insert(fp, ()).is_none();
                             if newly {
                                 global_states.insert(fp);
                                 local_next.push((ni, r.model_after));
@@ -357,13 +357,13 @@ pub fn saturate(
                     for (k, v) in kinds {
                         stats.add(&k, v);
                     }
-                    next.lock().unwrap().extend(local_next);
+                    next.lock().unwrap_or_else(|e| e.into_inner()).extend(local_next);
                     crate::sup::clear_case();
                 });
             }
         });
         if keep {
-            kept.lock().unwrap().extend(frontier.iter().cloned());
+            kept.lock().unwrap_or_else(|e| e.into_inner()).extend(frontier.iter().cloned());
         }
         frontier = next.into_inner().unwrap();
         if !frontier.is_empty() {
@@ -371,11 +371,11 @@ pub fn saturate(
         }
     }
     stats.add("transitions", transitions.load(Ordering::Relaxed));
-    let n = seen.lock().unwrap().len();
+    let n = seen.lock().unwrap_or_else(|e| e.into_inner()).len();
     // canonical order (the BFS itself is parallel): "state #k" must mean the same state in
     // every run, e.g. when a published case is replayed by the supervisor
     {
-        let mut k = kept.lock().unwrap();
+        let mut k = kept.lock().unwrap_or_else(|e| e.into_inner());
         k.sort_by_cached_key(|(img, m)| (m.len, m.held.len(), env::fp_image(img, b"")));
     }
     SatResult {
@@ -513,6 +513,65 @@ fn live_walks(
     });
 }
 
+/// Every (replica length r, upgrade target L, writer length n) with r < L <= n <= nmax: a
+/// replica that upgraded to the writer's head when the writer had r blocks asks the writer, now
+/// at n blocks, for an upgrade to L (partial when L < n, the proof then carries additional
+/// nodes) alone and together with a block. All root-set shapes up to nmax occur on both sides.
+fn upgrade_matrix(nmax: u64, rep: &Report, stats: &Stats) -> u64 {
+    // replica images at every length, taken while the writer grows
+    let mut w = build_writer(&[]);
+    let mut images: Vec<(Image, ReplicaModel)> = vec![empty_replica()];
+    let blk = |i: u64| Blk::P(((i + 1) % 4) as u32, 3);
+    let mut whist: Vec<Op> = vec![];
+    let mut n_checked = 0u64;
+    for n in 1..=nmax {
+        let op = Op::Append(blk(n - 1));
+        let len = w.model.len();
+        if !exec_writer(&mut w.core, &op, len).is_ok() {
+            return n_checked;
+        }
+        w.model.apply(&op);
+        whist.push(op);
+        w.tree = scheme::RefTree::build(&w.model.orig);
+        for r in 0..n {
+            let (img, rm) = images[r as usize].clone();
+            for l in r + 1..=n {
+                for with_block in [None, Some(l - 1), if r > 0 { Some(0) } else { None }] {
+                    if with_block.is_none() && l != n && (n - l) > 9 && (l - r) > 9 && (n + l + r) % 3 != 0 {
+                        continue; // thin the far-apart upgrade-only cases, keep every with_block variant small
+                    }
+                    if with_block == Some(0) && (l != n && l != r + 1) {
+                        continue;
+                    }
+                    n_checked += 1;
+                    let req = Req { block: with_block, up: Some(l), ..Default::default() };
+                    crate::sup::tick();
+                    let res = step(&mut w, &img, &rm, &req, false);
+                    if let Some((clause, detail)) = res.viol {
+                        rep.violate(
+                            &clause,
+                            format!("upgrade-matrix req={} partial={}", req_sig(&req), l < n),
+                            format!("writer of {n} blocks, replica synced at length {r}, request {}: {}", req_brief(&req), detail),
+                            json!({"prop": "C03", "what": "E2", "writer": whist, "req": req,
+                                   "replica": {"len": rm.len, "byte_len": rm.byte_len, "held": rm.held}, "image": image_hex(&img)}),
+                            (n * 100 + l) as usize,
+                        );
+                    }
+                }
+            }
+        }
+        // the replica state "synced at length n" for later rounds: a fresh replica upgrading to n now
+        let (img0, rm0) = empty_replica();
+        let res = step(&mut w, &img0, &rm0, &Req { up: Some(n), ..Default::default() }, false);
+        match res.image_after {
+            Some(i) if res.accepted => images.push((i, res.model_after)),
+            _ => return n_checked,
+        }
+    }
+    stats.add("upgrade_matrix_requests", n_checked);
+    n_checked
+}
+
 pub fn run(tier: &str) -> i32 {
     let quick = tier == "quick";
     let rep = Report::new("C03", tier, "model_checking");
@@ -610,6 +669,9 @@ pub fn run(tier: &str) -> i32 {
         e1_json.push(json!({"family": name, "depth": depth, "complete_histories": leaves}));
     }
     total_states += states.len();
+    let matrix_n = if quick { 24 } else { 40 };
+    let matrix = upgrade_matrix(matrix_n, &rep, &stats);
+    traces += matrix;
     let coverage = json!({
         "states": total_states,
         "transitions": stats.get("transitions") + stats.get("live_steps"),
@@ -619,6 +681,7 @@ pub fn run(tier: &str) -> i32 {
         "rule": "E2: BFS over exact replica storage images per writer log; from every state every well-formed request (upgrade to every length, block, hash of every full tree node, seeks per the shape's seek mode) is proved by the real writer and applied by the real replica, reopening in between; all reachable states are visited (saturation). Oracle: proof returned (none iff block cleared), accepted, replica info/has/get equal the replica model. Live walks: request sequences without reopen from every k-th state. Growth rounds re-saturate from all earlier states after the writer appended.",
         "shapes": shape_json,
         "e1_replica_families_with_growth_and_reopen": e1_json,
+        "upgrade_matrix": {"writer_lengths_up_to": matrix_n, "requests": matrix, "what": "replica synced at r, writer at n, upgrade to every L in (r, n] alone and with a block"},
         "live_walks": stats.get("live_walks"),
         "outcomes_by_request_kind": stats.counters_json(),
         "samples": [
